@@ -106,6 +106,13 @@ func c03GenTx(r *rng, st *stats, o genOpts, risky string) GTx {
 	for i := 0; i < n; i++ {
 		ind, sep := genIndentSep(r, o)
 		p := GPosting{Account: genAccount(r, o), Indent: ind, Sep: sep, Status: pickW(r, []string{"", "*", "!"}, []int{85, 10, 5}), Virtual: pickW(r, []int{0, 1, 2}, []int{80, 10, 10})}
+		if o.NonASCII && r.chance(15) {
+			// the first segment outside ASCII too (ordinary, [balanced] and (unbalanced) postings alike)
+			if i := strings.Index(p.Account, ":"); i > 0 {
+				p.Account = pick(r, gSegU) + p.Account[i:]
+				st.count("account:non-ascii-first-segment")
+			}
+		}
 		if r.chance(80) {
 			sym := pick(r, append(append([]string{}, gSymsR...), "$", "€", "", "apples"))
 			if o.Quoted && r.chance(12) {
